@@ -362,7 +362,7 @@ class Guards:
             if st["s"] == "assign" and st["place"]["local"] == dl and not st["place"]["proj"] and st["rv"]["r"] == "discriminant" and not st["rv"]["place"]["proj"]:
                 src = st["rv"]["place"]["local"]
         if src is None:
-            return []
+            return self._refine_bool(bb, val, vals, depth)
         names = self._variant_names(bb)
         if not names:
             return []
@@ -394,6 +394,49 @@ class Guards:
         for n in consistent:
             a = set(self.atoms_at(n, depth + 1))
             common = a if common is None else (common & a)
+        return sorted(common or [])
+
+    def _refine_bool(self, bb, val, vals, depth):
+        """`let flag = a || b; if flag {..}`: the flag is assigned `true` under a, and `b` otherwise.  On the arm
+        where the flag is false, every assignment that could have produced false holds its condition negated, and
+        whatever held where it was made; likewise for true."""
+        t = self.fn.blocks[bb]["term"]
+        others = [v for v in vals if v != val]
+        if val == "0":
+            pol = False
+        elif (val == "otherwise" and others == ["0"]) or (val == "1" and "0" in others):
+            pol = True
+        else:
+            return []
+        l = t["discr"]["place"]["local"]
+        if self.fn.locals[l]["s"] != "bool":
+            return []
+        # follow a plain copy of the flag
+        defs = self.prov.defs.get(l, [])
+        hops = 0
+        while len(defs) == 1 and defs[0][1] != "t" and len(defs[0]) > 2 and defs[0][2].get("s") == "assign" and defs[0][2]["rv"]["r"] == "use" \
+                and defs[0][2]["rv"]["op"]["k"] in ("copy", "move") and not defs[0][2]["rv"]["op"]["place"]["proj"] and hops < 4:
+            l = defs[0][2]["rv"]["op"]["place"]["local"]
+            defs = self.prov.defs.get(l, [])
+            hops += 1
+        if len(defs) < 2:
+            return []
+        common = None
+        for d in defs:
+            if d[1] == "t" or len(d) < 3 or d[2].get("s") != "assign":
+                return []
+            rv = d[2]["rv"]
+            node = ("s", d[0], d[1])
+            here = set(self.atoms_at(node, depth + 1))
+            if rv["r"] == "use" and rv["op"]["k"] == "const":
+                cv = str(rv["op"].get("val", rv["op"].get("repr", "")))
+                cval = cv in ("1", "true", "const true")
+                if cval != pol:
+                    continue            # this assignment cannot have produced the observed value
+            else:
+                e = self.prov._def(d, 1, (l,))
+                here |= set(canon_bool(e, pol))
+            common = here if common is None else (common & here)
         return sorted(common or [])
 
     def describe(self, bb, val, vals):
